@@ -1,9 +1,10 @@
 import SmtpV.Props.DataMonitor
+import SmtpV.Proofs.DataResume
 /-!
 # C02 — only `CRLF.CRLF` ends DATA; commands resume exactly after it (reader part)
 
-The conversation-level half (`C02_resume` on the wire model: whatever the backend does, the
-next command is the line after the marker) lives in Props/C02Conv.lean.
+The conversation-level half follows: `C02_resume` on the server and wire model — whatever the backend
+does, the stream the command loop reads next starts exactly behind the marker.
 -/
 namespace SmtpV.Props.C02
 open SmtpV SmtpV.Spec SmtpV.DataReader
@@ -35,5 +36,36 @@ theorem C02_lookalikes :
 /-- the look-alikes inside a message that does end: they are delivered as data, nothing is cut -/
 example : terminated? ("x\n.\ny\n.\r\nz\r\n.\nw\r.\rv\r\n.\r\nNOOP\r\n".b) =
     some ("x\n.\ny\n.\r\nz\r\n\nw\r.\rv\r\n".b, "NOOP\r\n".b) := by decide +kernel
+
+/-! ### resumption: the server's DATA handler on the wire model -/
+open SmtpV.Server SmtpV.Wire
+
+/-- **C02_resume.**  For every state of the server model in which `DATA` has been accepted, every backend behaviour
+    scripted for the delivery (how much it reads, in which read sizes, what it returns, panics), every size limit,
+    SMTP, LMTP and LMTP with a per-recipient backend, and every way the connection's octets are cut into network
+    segments and already sit in bufio's buffer: when the handler returns, either a panic escapes (`handle` then
+    closes the connection), or the connection is closed, or the line limiter has latched, or nothing at all is left
+    to read, or the octet stream the handler started on was a terminated message — what the backend was handed is a
+    prefix of its unstuffed body — and **what the command loop will read next is exactly what follows the marker**. -/
+theorem C02_resume (s : S) (id : Nat) (hwf : WF s.w) :
+    (dataSync s id).2 = true ∨ (dataSync s id).1.c.closed = true ∨
+    ∃ octets, (dataSync s id).1.w.tripped = true ∨ pending (dataSync s id).1.w = [] ∨
+      ∃ tail rest, Terminated (pending s.w) (octets ++ tail) rest ∧ pending (dataSync s id).1.w = rest :=
+  dataSync_resume s id hwf
+
+/-- the two escape clauses of `C02_resume` execute no command: once the limiter has latched, and on a stream with
+    nothing left, the next `readLine` of the command loop reports an error (and the loop ends the connection) -/
+theorem C02_resume_escapes (w : W) (hwf : WF w) (h : w.tripped = true ∨ pending w = []) :
+    ∃ e, (readLine w).2 = .error e := by
+  rcases h with h | h
+  · exact readLine_tripped w h
+  · exact readLine_dry w hwf h
+
+/-- the hypothesis of `C02_resume` is met by any wire of non-empty segments with no latched error -/
+theorem C02_wf_fresh (w : W) (hne : ∀ x ∈ w.segs, x ≠ []) (he : w.err = none) : WF w :=
+  ⟨hne, by rw [he]; intro h; cases h⟩
+
+example : WF ({ segs := ["a\r\n.\r".b, "\nNOOP\r\n".b], limit := 2000 } : W) :=
+  C02_wf_fresh _ (by decide) rfl
 
 end SmtpV.Props.C02
